@@ -50,7 +50,7 @@ def main():
         out['demo_changed_rc'] = rc1
         out['demo_changed_tail'] = o1[-400:]
         if '--skip-baseline' not in args:
-            rc, o = sh(['python3', os.path.join(V, 'tools', 'baseline_check.py'), '--repo', wt], timeout=7200,
+            rc, o = sh(['python3', os.path.join(V, 'tools', 'baseline_check.py'), '--repo', wt, '--fast'], timeout=7200,
                        env=dict(os.environ, OPENBLAS_NUM_THREADS='1', OMP_NUM_THREADS='1'))
             out['baseline_ok'] = rc == 0
             out['baseline_tail'] = o[-300:]
